@@ -176,6 +176,9 @@ func (b *assignmentBuilder) structFieldAndStructGettersAndFields(lhs bmodel.Node
 			!opts.CompareFieldName(lhs.ObjName(), rhs.ObjName()) {
 			return
 		}
+		if m, ok := rhs.(bmodel.StructMethodNode); ok && !isCallableOn(rhsStruct, m.Method()) {
+			return
+		}
 
 		if util.IsSliceType(lhs.ExprType()) && util.IsSliceType(rhs.ExprType()) {
 			a, err = b.sliceToSlice(lhs, rhs)
@@ -412,6 +415,17 @@ func isAddressable(node bmodel.Node) bool {
 	}
 }
 
+// isCallableOn returns true if method can be called on the expression of the node:
+// a method with a pointer receiver needs a pointer or an addressable operand, which
+// the result of a by-value getter, for instance, is not.
+func isCallableOn(node bmodel.Node, method *types.Func) bool {
+	sig, ok := method.Type().(*types.Signature)
+	if !ok || sig.Recv() == nil || !util.IsPtr(sig.Recv().Type()) {
+		return true
+	}
+	return util.IsPtr(node.ExprType()) || isAddressable(node)
+}
+
 // isStructFieldAccessible returns true if the given struct field is accessible from the current package.
 func (b *assignmentBuilder) isStructFieldAccessible(structNode bmodel.Node, leafName string) bool {
 	structType := util.DerefPtr(structNode.ExprType())
@@ -470,6 +484,9 @@ func (b *assignmentBuilder) resolveExpr(matcher *option.IdentMatcher, root bmode
 				return
 			}
 
+			if !isCallableOn(node, method) {
+				return
+			}
 			node = bmodel.NewStructMethodNode(node, method)
 			if isLast {
 				return node, true
@@ -549,6 +566,9 @@ func (b *assignmentBuilder) resolveTemplatedExpr(
 				return
 			}
 
+			if !isCallableOn(node, method) {
+				return
+			}
 			node = bmodel.NewStructMethodNode(node, method)
 			if isLast {
 				return node, true
